@@ -9,7 +9,7 @@ From Coq Require Import Reals List String.
 From Coquelicot Require Import Coquelicot.
 From QV Require Import Found.Base Found.KS Found.KSProofs Found.Sym Found.SymProofs Found.CInst.
 From QV Require Import Gen.Gates Gen.SingleQubit Model.SingleQubit Model.Qft.
-From QV Require Import Proofs.C17Sem Proofs.QftStruct Proofs.QftSem Proofs.QftDft Proofs.Euler Proofs.EulerWitness.
+From QV Require Import Proofs.C17Sem Proofs.QftStruct Proofs.QftSem Proofs.QftDft Proofs.QftGen Proofs.Euler Proofs.EulerWitness.
 Import ListNotations.
 Local Open Scope string_scope.
 Local Open Scope list_scope.
@@ -98,19 +98,33 @@ Theorem qft_to_cnot_upto_phase : forall N sw lt lf,
 Proof. exact to_cnot_upto_phase. Qed.
 Print Assumptions qft_to_cnot_upto_phase.
 
-(* BOUNDED (N <= 5): with native controlled phases and the final swaps the circuit IS the DFT matrix
-   2^(-N/2) e^{2 pi i jk/2^N} on qubits 0..N-1 (qubit 0 most significant), global phase included *)
+(* ALL N: with native controlled phases and the final swaps the circuit IS the DFT matrix
+   dftC N r c = 2^(-N/2) e^{2 pi i (idx r)(idx c)/2^N} on qubits 0..N-1 (qubit 0 most significant), global phase included.
+   General inductive proof (Proofs/QftGen.v). *)
+Theorem qft_is_dft : forall N l, qft_gate_sequence N true false = Some l ->
+  sem (map qden l) = sem [(dftC N, seq 0 N)].
+Proof. exact qft_is_dft_all. Qed.
+Print Assumptions qft_is_dft.
+
+(* ALL N: the CNOT-expanded circuit with swaps is the DFT up to the global phase e^{i exp_angle} *)
+Theorem qft_cnot_is_dft_upto_phase : forall N lt lf,
+  qft_gate_sequence N true true = Some lt -> qft_gate_sequence N true false = Some lf ->
+  forall psi, sem (map qden lt) psi = sscale (cis (exp_angle lf)) (sem [(dftC N, seq 0 N)] psi).
+Proof. exact qft_cnot_is_dft_all. Qed.
+Print Assumptions qft_cnot_is_dft_upto_phase.
+
+(* ALL N, swapping = False: the DFT with the output register read in reversed qubit order *)
+Theorem qft_noswap_is_bit_reversed_dft : forall N l, qft_gate_sequence N false false = Some l ->
+  forall psi x, sem (map qden l) psi x = sem [(dftC N, seq 0 N)] psi (rev_full N x).
+Proof. exact qft_noswap_is_reversed_dft. Qed.
+Print Assumptions qft_noswap_is_bit_reversed_dft.
+
+(* independent cross-check of the same statement for N <= 5 by symbolic computation of the full 2^N x 2^N table over the
+   exact ring (resolution pi/16) - BOUNDED *)
 Theorem qft_is_dft_bounded_N5 : forall N l, (N <= 5)%nat -> qft_gate_sequence N true false = Some l ->
   sem (map qden l) = sem [(dftC N, seq 0 N)].
 Proof. exact qft_is_dft_upto5. Qed.
 Print Assumptions qft_is_dft_bounded_N5.
-
-(* BOUNDED (N <= 5): the CNOT-expanded circuit with swaps is the DFT up to a global phase *)
-Theorem qft_cnot_is_dft_upto_phase_bounded_N5 : forall N lt lf, (N <= 5)%nat ->
-  qft_gate_sequence N true true = Some lt -> qft_gate_sequence N true false = Some lf ->
-  forall psi, sem (map qden lt) psi = sscale (cis (exp_angle lf)) (sem [(dftC N, seq 0 N)] psi).
-Proof. exact qft_cnot_is_dft_upto5. Qed.
-Print Assumptions qft_cnot_is_dft_upto_phase_bounded_N5.
 
 (* non-vacuity *)
 Example qft3_cnot_has_22_gates : exists l, qft_gate_sequence 3 true true = Some l /\ length l = 22%nat.
